@@ -416,7 +416,7 @@ def check_server_pipelines(ctx):
     ctx.extra["server_pipeline_runs"] = len(cases)
 
 
-def check(ctx):
+def _check(ctx):
     rng = ctx.rng
     lines, pending, server_cases = [], [], []
     n = 6000 if ctx.quick else 60000
@@ -468,7 +468,7 @@ def check(ctx):
     check_server_pipelines(ctx)
 
 
-def replay(ctx, case):
+def _replay(ctx, case):
     if "stream" not in case:
         return
     data = unhx(case["stream"])
@@ -488,3 +488,17 @@ def replay(ctx, case):
         segs.append(data[pos:pos + n]); pos += n
     canon, o = H.run_impl(cfg, segs, False)
     oracle_parser(ctx, cfg, data, segs, o, cfg.max_line == 8190 and cfg.max_field == 8190 and cfg.max_headers == 128)
+
+
+def check(ctx):
+    try:
+        _check(ctx)
+    finally:
+        H.hang_report(ctx)     # inputs on which the parser did not return
+
+
+def replay(ctx, case):
+    try:
+        _replay(ctx, case)
+    finally:
+        H.hang_report(ctx)
